@@ -233,12 +233,25 @@ def build_suite(rec, sd, prefix=""):
         test = Test(td["name"], "desc of " + td["name"], make_func(td["args"], body_impl))
         test.rank = td.get("rank", 0)
         test.disabled = bool(td.get("disabled"))
-        test.dependencies = list(td.get("deps", []))
+        test.dependencies = [_as_dependency(rec, d, tpath) for d in td.get("deps", [])]
         test.parameters = dict(td.get("params", {}))
         suite.add_test(test)
     for sub in sd.get("subs", []):
         suite.add_suite(build_suite(rec, sub, path + "."))
     return suite
+
+
+def _as_dependency(rec, dep, own):
+    """A dependency on a test of the project being built is declared by its path or -- one time in three -- by a predicate that
+    designates the same test (depends_on accepts both; the model only knows the designated test)."""
+    import zlib
+    known = getattr(rec, "known_test_paths", None)
+    if not known or dep == own or dep not in known:
+        return dep
+    if zlib.crc32(("%s<-%s" % (dep, own)).encode()) % 3 == 0:
+        rec.predicate_deps = getattr(rec, "predicate_deps", 0) + 1
+        return lambda t, dep=dep: t.path == dep
+    return dep
 
 
 class GeneratedProject(Project):
@@ -255,6 +268,9 @@ class GeneratedProject(Project):
 
 
 def build_project(rec, pd, project_dir):
+    import projgen
+    paths = projgen.all_test_paths(pd)
+    rec.known_test_paths = set(p for p in paths if paths.count(p) == 1)
     fixtures = [build_fixture(rec, fd) for fd in pd.get("fixtures", [])]
     suites = [build_suite(rec, sd) for sd in pd.get("suites", [])]
     return GeneratedProject(project_dir, suites, fixtures)
